@@ -1,0 +1,17 @@
+//go:build verif
+
+package field
+
+// Hooks for the verification harness (build tag verif). Add-only; no behaviour change.
+
+// VerifLimbs returns the four 64-bit limbs of v.
+func (v *Element) VerifLimbs() [4]uint64 { return [4]uint64{v.l0, v.l1, v.l2, v.l3} }
+
+// VerifSetLimbs sets the limbs of v verbatim (no reduction).
+func (v *Element) VerifSetLimbs(l [4]uint64) *Element {
+	v.l0, v.l1, v.l2, v.l3 = l[0], l[1], l[2], l[3]
+	return v
+}
+
+// VerifReduce exposes reduce.
+func (v *Element) VerifReduce() *Element { return v.reduce() }
